@@ -86,7 +86,7 @@ reason, disconnect -/
 theorem recv_tooLow {s : Side} {env : Env} {c : Conn} {f : Msg} {n : Int}
     (hc : ConnGood s c) (hi : InFrame c f n) (hl3 : isLatin1 env.stamp = true)
     (hst : c.state = st_NETWORK_CONN_ESTABLISHED ∨ c.state = st_LOGON_INITIAL_SENT ∨ c.state = st_ACTIVE ∨
-      (c.state = st_RESENDREQ_AWAITING ∧ f.get? tPossDupFlag = none))
+      (c.state = st_RESENDREQ_AWAITING ∧ f.get? tPossDupFlag ≠ some "Y"))
     (h4 : f.mtype ≠ mSequenceReset) (hn : n < c.sess.nextIn) :
     StepOK s (absConn c).dropLogout (recv srAll env c f).1 (recv srAll env c f).2 := by
   obtain ⟨h8, h49, h56, h34⟩ := hi
@@ -105,7 +105,11 @@ theorem recv_tooLow {s : Side} {env : Env} {c : Conn} {f : Msg} {n : Int}
     ev_simp [h8, h49, h56, h34, hst, h4, hn, hsock, g5, g6, g7, g8, hinb, hrows, l1, l2, hl3, ht]
     omega
   · have hsock := sock_of_state hc (by rw [hst]; decide)
-    ev_simp [h8, h49, h56, h34, hst, h4, hn, hsock, g5, g6, g7, g8, hinb, hrows, l1, l2, hl3, ht, hpd]
+    have hpdb : ¬ (f.get? tPossDupFlag).getD "N" = "Y" := by
+      cases h : f.get? tPossDupFlag with
+      | none => decide
+      | some v => intro hv; simp at hv; exact hpd (by rw [h, hv])
+    ev_simp [h8, h49, h56, h34, hst, h4, hn, hsock, g5, g6, g7, g8, hinb, hrows, l1, l2, hl3, ht, hpdb]
     omega
 
 end AsyncFix.Link
